@@ -478,6 +478,16 @@ func (p *Path) Branch(c *Term) bool {
 			p.modelValid = false
 		}
 	}
+	if debugBranch && okT && okF {
+		loc := ""
+		if cf := p.w.interp.curFrame; cf != nil {
+			loc = cf.fn.String() + " " + cf.where()
+			if cf.caller != nil {
+				loc += " <- " + cf.caller.fn.String()
+			}
+		}
+		fmt.Printf("FORK %s @ %s\n", c, loc)
+	}
 	p.decisions = append(p.decisions, Decision{Kind: 'b', Taken: take})
 	if take {
 		p.addPC(c)
